@@ -155,8 +155,8 @@ def judge(ctx, cases, impl):
 
 def run(ctx):
     g = G(ctx.seed)
-    cases = gen(g, 150 if ctx.tier == 'quick' else 2500, ctx.tier)
-    cases += gen_flags(g, 240 if ctx.tier == 'quick' else 3000)
+    cases = gen(g, 500 if ctx.tier == 'quick' else 2500, ctx.tier)
+    cases += gen_flags(g, 720 if ctx.tier == 'quick' else 3000)
     # an unbounded --maxdepth on a cyclic book (recursion depth = maxdepth)
     deep = app(['csv', 'database-resolved'], {b'food.yaml': b'a:\n  a: 1\n', b'log.yaml': b''}, g={'maxdepth': 100000000}, kind='csv database-resolved maxdepth=1e8')
     deep.meta['style'] = 'deep'
